@@ -29,6 +29,10 @@ pub struct ReqCase {
     pub a: String,
     pub b: String,
     pub url: String,
+    /// bit 0: configure the four OTHER endpoints (set / set-option) after id, secret, auth type and redirect were
+    /// set and before this flow's own endpoint; bit 1 (device token only): call set_time_fn; bit 2: set_max_backoff_interval
+    #[serde(default)]
+    pub noise: u8,
 }
 
 #[derive(Debug)]
@@ -211,6 +215,7 @@ impl CaseInput for ReqCase {
             a: gen::hostile_s(r),
             b: if kind == 2 { gen::hostile_s(r) } else { String::new() },
             url,
+            noise: r.below(8) as u8,
         }
     }
 
@@ -271,7 +276,20 @@ impl CaseInput for ReqCase {
             }};
         }
 
-        let base = configure!(BasicClient::new(ClientId::new(self.id.clone())));
+        // every other endpoint configured AFTER id / secret / auth type / redirect: a setter that drops or resets
+        // one of those shows up in the request of whatever flow runs next
+        macro_rules! noise {
+            ($c:expr) => {{
+                $c.set_auth_uri(AuthUrl::new("https://noise.example/auth".into()).unwrap())
+                    .set_device_authorization_url(DeviceAuthorizationUrl::new("https://noise.example/dev".into()).unwrap())
+                    .set_introspection_url_option(Some(IntrospectionUrl::new("https://noise.example/intro".into()).unwrap()))
+                    .set_revocation_url_option(None)
+                    .set_token_uri_option(Some(TokenUrl::new("https://noise.example/token".into()).unwrap()))
+            }};
+        }
+        macro_rules! kinds {
+            ($base:expr, $custom:expr) => {{
+                let base = $base;
         match self.kind {
             0 => {
                 let c = base.set_token_uri(TokenUrl::new(self.url.clone()).unwrap());
@@ -314,7 +332,15 @@ impl CaseInput for ReqCase {
                 let doc = serde_json::json!({"device_code": self.a, "user_code": "u", "verification_uri": "https://v.example/",
                     "expires_in": 600, "interval": 0});
                 let dar: StandardDeviceAuthorizationResponse = serde_json::from_value(doc).unwrap();
-                let res = extras!(c.exchange_device_access_token(&dar)).request(&http, |_| {}, None);
+                let mut drq = extras!(c.exchange_device_access_token(&dar));
+                if self.noise & 4 == 4 {
+                    drq = drq.set_max_backoff_interval(std::time::Duration::from_secs(3));
+                }
+                let res = if self.noise & 2 == 2 {
+                    drq.set_time_fn(chrono::Utc::now).request(&http, |_| {}, None)
+                } else {
+                    drq.request(&http, |_| {}, None)
+                };
                 note!(res);
             }
             6 => {
@@ -329,7 +355,7 @@ impl CaseInput for ReqCase {
             }
             7 => {
                 if self.revoke_mode == 2 {
-                    let c = configure!(CustomClient::new(ClientId::new(self.id.clone())))
+                    let c = $custom
                         .set_revocation_url(RevocationUrl::new(self.url.clone()).unwrap());
                     let rq = c.revoke_token(CustomTok { secret: self.a.clone(), hint: self.hint.clone() }).unwrap();
                     let res = extras!(rq).request(&http);
@@ -346,6 +372,13 @@ impl CaseInput for ReqCase {
                 }
             }
             _ => unreachable!(),
+        }
+            }};
+        }
+        if self.noise & 1 == 1 {
+            kinds!(noise!(configure!(BasicClient::new(ClientId::new(self.id.clone())))), noise!(configure!(CustomClient::new(ClientId::new(self.id.clone())))));
+        } else {
+            kinds!(configure!(BasicClient::new(ClientId::new(self.id.clone()))), configure!(CustomClient::new(ClientId::new(self.id.clone()))));
         }
 
         let seen = rec.seen.borrow();
@@ -533,6 +566,11 @@ impl CaseInput for ReqCase {
                 c.scopes[i] = x;
                 v.push(c);
             }
+        }
+        if self.noise != 0 {
+            let mut c = self.clone();
+            c.noise = 0;
+            v.push(c);
         }
         if self.url != "https://example.com/token" {
             let mut c = self.clone();
